@@ -27,7 +27,7 @@ from __future__ import annotations
 import z3
 
 from pyvc.framework import Harness
-from pyvc.interp import Raised, Coro, exc, SymPySet, PathEnd
+from pyvc.interp import Raised, Coro, exc, SymPySet, PathEnd, EXC
 from pyvc.loader import Module
 from pyvc.stmts import Interpreter, PyModule
 from pyvc.values import Rec, SV
@@ -87,6 +87,59 @@ def h_start_global_contexts(eng):
     ob = eng.oblige(f"{U}/post.started-iff-a-script-context-at-or-below-the-requested-name", (started == [1] and auto == [True]) if want else (started == [] and auto == []))
     if ob.status == "refuted":
         ob.witness = {"signature": "start-predicate", "name": name, "requested": only}
+
+
+def h_update_yaml_config(eng):
+    """update_yaml_config: decides whether a reload must be widened to every context because a global option changed.
+    Contract: (1) returns True exactly when a snapshot of the three global options exists and differs from the entry's current
+    values; (2) on EVERY return the snapshot equals the entry's current values - otherwise every later reload with nothing
+    changed is widened to '*' again and all contexts are re-created (variables reset, triggers restarted)."""
+    U = "C10/update_yaml_config"
+    it = Interpreter(eng)
+    w = World(eng)
+    params = ["hass_is_global", "allow_all_imports", "legacy_decorators"]
+    cur = {p: z3.Bool(f"entry_{p}") for p in params}
+    old = {p: z3.Bool(f"saved_{p}") for p in params}
+    has_old = bool(eng.choose(2, "snapshot-exists"))
+    yaml_differs = True   # whether the YAML differs from the entry only decides the import flow (a Home Assistant call)
+    domain_present = True if has_old else bool(eng.choose(2, "domain-in-hass.data"))
+    entry_data = Rec(fields={"get": lambda i, k, d=None: SV(cur[k]) if k in cur else d,
+                             "__ne__": lambda i, o: yaml_differs, "__eq__": lambda i, o: not yaml_differs}, name="config_entry.data")
+    entry = Rec(fields={"data": entry_data}, name="config_entry")
+    flows = []
+    store = {}
+    if domain_present:
+        store["pyscript"] = {"config_entry_old": {p: SV(old[p]) for p in params}} if has_old else {}
+    hass = Rec(fields={"data": store, "config_entries": Rec(fields={"flow": Rec(fields={
+        "async_init": lambda i, dom, context=None, data=None: Coro(lambda: flows.append((dom, context, data)), "flow.async_init")})})}, name="hass")
+    conf = {"pyscript": {"marker": "yaml"}}
+    config = Rec(fields={"__ne__": lambda i, o: yaml_differs, "__eq__": lambda i, o: not yaml_differs}, name="validated-yaml-config")
+    mod = load_init_module(it, {"async_hass_config_yaml": lambda i, h: Coro(lambda: conf, "async_hass_config_yaml"),
+                                "PYSCRIPT_SCHEMA": lambda i, c: config, "CONFIG_ENTRY_OLD": "config_entry_old", "SOURCE_IMPORT": "import",
+                                "CONF_HASS_IS_GLOBAL": "hass_is_global", "CONF_ALLOW_ALL_IMPORTS": "allow_all_imports",
+                                "CONF_LEGACY_DECORATORS": "legacy_decorators", "HomeAssistantError": EXC["Exception"]})
+    k, v = run_catching(it, lambda: it.await_(it.call(mod.env.vars["update_yaml_config"], [hass, entry], {})))
+    eng.cover(f"exit:{k}:{has_old}")
+    eng.oblige(f"{U}/post.no-exception", k == "ok")
+    if k != "ok":
+        return
+    changed = z3.Or(*[old[p] != cur[p] for p in params])
+    vt = v.t if isinstance(v, SV) else z3.BoolVal(bool(v))
+    ob = eng.oblige(f"{U}/post.widens-the-reload-iff-a-saved-global-option-differs", vt == (changed if has_old else z3.BoolVal(False)))
+    if ob.status == "refuted":
+        ob.witness = {"signature": "update_yaml_config:verdict", "what": "yaml-options"}
+    saved = store.get("pyscript", {}).get("config_entry_old")
+    ok_shape = isinstance(saved, dict) and sorted(saved) == sorted(params)
+    cond = z3.And(*[(saved[p].t if isinstance(saved[p], SV) else z3.BoolVal(bool(saved[p]))) == cur[p] for p in params]) if ok_shape else False
+    ob = eng.oblige(f"{U}/post.the-saved-options-are-the-current-ones-on-every-return", cond)
+    if ob.status == "refuted":
+        ob.witness = {"signature": "update_yaml_config:stale-snapshot", "what": "yaml-options"}
+    eng.oblige(f"{U}/post.yaml-is-imported-at-most-once", len(flows) <= 1)
+
+
+def replay_yaml_options(wj):
+    from replay.native import run_native
+    return run_native("c10_yaml_options", wj, timeout=120)
 
 
 def load_init_module(it, extra):
@@ -706,6 +759,7 @@ def harnesses():
     hs.append(Harness("GlobalContextMgr.load_file", h_load_file, units=[(GC_PY, "GlobalContextMgr.load_file")],
                       replay=lambda wj: __import__("replay.native", fromlist=["run_native"]).run_native("c10_empty_file", wj)))
     hs.append(Harness("start_global_contexts", h_start_global_contexts, units=[(I_PY, "start_global_contexts")]))
+    hs.append(Harness("update_yaml_config", h_update_yaml_config, units=[(I_PY, "update_yaml_config")], replay=replay_yaml_options))
     hs.append(Harness("load_scripts.changed-set", h_changed_set, units=[(I_PY, "load_scripts")], max_paths=20000))
     hs.append(Harness("load_scripts.will_reload", h_will_reload, units=[(I_PY, "load_scripts")], max_paths=20000))
     hs.append(Harness("load_scripts.importers", h_importers, units=[(I_PY, "load_scripts")], max_paths=20000))
